@@ -499,12 +499,13 @@ at most a backslash and the byte after it across a refill), the streamed skip ei
 or it does exactly what the bytewise reference does on the whole remaining input: it stops right after the matching
 close (reader related to the rest), or reports `Eof` when the input ends first. -/
 theorem skipLoop_spec (n : Nat) : ∀ (r : Reader) (pos : Nat) (bom : Bom) (d : Bytes) (st : SkipSt) (depth : Int) (fuel : Nat),
-    r.src.rest.length ≤ n → Rel r pos bom d → (r.cap = 0 ∨ 3 ≤ r.cap) → n + 1 ≤ fuel →
+    r.src.rest.length ≤ n → Rel r pos bom d → n + 1 ≤ fuel →
     (∃ r', skipLoop fuel r st depth 0 = .err r' .io) ∨
+    (∃ r', skipLoop fuel r st depth 0 = .err r' .full ∧ r.cap ≠ 0 ∧ r.cap ≤ 2) ∨
     SkipOut (skipLoop fuel r st depth 0) r.cap pos bom d st depth := by
   induction n with
   | zero =>
-    intro r pos bom d st depth fuel hn hrel hcap hfuel
+    intro r pos bom d st depth fuel hn hrel hfuel
     obtain ⟨f, rfl⟩ : ∃ f, fuel = f + 1 := ⟨fuel - 1, by omega⟩
     have he : r.src.rest = [] := List.eq_nil_of_length_eq_zero (by omega)
     have hd : d = r.win := by rw [← hrel.data, he]; simp
@@ -516,7 +517,7 @@ theorem skipLoop_spec (n : Nat) : ∀ (r : Reader) (pos : Nat) (bom : Bom) (d : 
     rw [hd]
     cases hs : skipRef r.win st depth 0 with
     | done p =>
-      right
+      right; right
       have hb := skipRef_done_bounds _ r.win st depth 0 p (Nat.le_refl _) hs
       obtain ⟨r', ha, hrel', _, _, hc'⟩ := hrel.advance p (by omega)
       simp only [ha]
@@ -529,17 +530,16 @@ theorem skipLoop_spec (n : Nat) : ∀ (r : Reader) (pos : Nat) (bom : Bom) (d : 
       have hrest0 : r0.src.rest = [] := by rw [hs0]; exact he
       rcases hrel0.fill with ⟨rio, hf, _⟩ | ⟨hf, h1, h2⟩ | ⟨_, r1, hf, _⟩ | ⟨hne, _⟩
       · left; rw [hf]; exact ⟨rio, rfl⟩
-      · exfalso
+      · right; left
         have : r0.win.length ≤ 2 := by rw [hw0]; simp; omega
-        rcases hcap with h | h
-        · exact h1 (by rw [hc0]; exact h)
-        · rw [hc0] at h2; omega
-      · right; rw [hf]; exact ⟨r1, rfl⟩
+        rw [hf]
+        exact ⟨r0, rfl, by rw [← hc0]; exact h1, by rw [← hc0]; omega⟩
+      · right; right; rw [hf]; exact ⟨r1, rfl⟩
       · exact absurd hrest0 hne
-    | ub => right; trivial
-    | fuel => right; trivial
+    | ub => right; right; trivial
+    | fuel => right; right; trivial
   | succ n ih =>
-    intro r pos bom d st depth fuel hn hrel hcap hfuel
+    intro r pos bom d st depth fuel hn hrel hfuel
     obtain ⟨f, rfl⟩ : ∃ f, fuel = f + 1 := ⟨fuel - 1, by omega⟩
     have hd : d = r.win ++ r.src.rest := hrel.data.symm
     have hscan : skipScan r.win (r.win.length + 2) st depth 0 = skipRef r.win st depth 0 := by
@@ -551,7 +551,7 @@ theorem skipLoop_spec (n : Nat) : ∀ (r : Reader) (pos : Nat) (bom : Bom) (d : 
     unfold SkipOut
     cases hs : skipRef r.win st depth 0 with
     | done p =>
-      right
+      right; right
       rw [hs] at happ
       simp only at happ
       rw [happ]
@@ -569,12 +569,11 @@ theorem skipLoop_spec (n : Nat) : ∀ (r : Reader) (pos : Nat) (bom : Bom) (d : 
       rw [hdp] at hrel0
       rcases hrel0.fill with ⟨rio, hf, _⟩ | ⟨hf, h1, h2⟩ | ⟨he0, r1, hf, _⟩ | ⟨hne, r1, k, hf, hrel1, hk, hw1, hr1, hc1, _⟩
       · left; rw [hf]; exact ⟨rio, rfl⟩
-      · exfalso
+      · right; left
         have : r0.win.length ≤ 2 := by rw [hw0]; simp; omega
-        rcases hcap with h | h
-        · exact h1 (by rw [hc0]; exact h)
-        · rw [hc0] at h2; omega
-      · right
+        rw [hf]
+        exact ⟨r0, rfl, by rw [← hc0]; exact h1, by rw [← hc0]; omega⟩
+      · right; right
         rw [hf]
         have he : r.src.rest = [] := by rw [← hs0]; exact he0
         have : d = r.win := by rw [hd, he]; simp
@@ -584,10 +583,10 @@ theorem skipLoop_spec (n : Nat) : ∀ (r : Reader) (pos : Nat) (bom : Bom) (d : 
         simp only
         rw [hs0] at hk hr1
         have hl1 : r1.src.rest.length ≤ n := by rw [hr1]; simp; omega
-        have hcap1 : r1.cap = 0 ∨ 3 ≤ r1.cap := by rw [hc1, hc0]; exact hcap
-        rcases ih r1 (pos + p) bom _ st' d' f hl1 hrel1 hcap1 (by omega) with hio | hok
+        rcases ih r1 (pos + p) bom _ st' d' f hl1 hrel1 (by omega) with hio | ⟨rf, hfl, hf1, hf2⟩ | hok
         · left; exact hio
-        · right
+        · right; left; exact ⟨rf, hfl, by rw [← hc0, ← hc1]; exact hf1, by rw [← hc0, ← hc1]; exact hf2⟩
+        · right; right
           rw [happ]
           have hsh := skipRef_shift p _ (r.win.drop p ++ r.src.rest) st' d' 0 (Nat.le_refl _)
           simp only [Nat.zero_add] at hsh
@@ -606,8 +605,8 @@ theorem skipLoop_spec (n : Nat) : ∀ (r : Reader) (pos : Nat) (bom : Bom) (d : 
           | refill a b c => rw [hx] at hok; simpa [shiftSS] using hok
           | ub => simp [shiftSS]
           | fuel => simp [shiftSS]
-    | ub => right; rw [hs] at happ; simp only at happ; rw [happ]; trivial
-    | fuel => right; rw [hs] at happ; simp only at happ; rw [happ]; trivial
+    | ub => right; right; rw [hs] at happ; simp only at happ; rw [happ]; trivial
+    | fuel => right; right; rw [hs] at happ; simp only at happ; rw [happ]; trivial
 
 end Jomini.TextReader
 
@@ -1032,11 +1031,14 @@ theorem C09_text_skip (r : Reader) (pos : Nat) (bom : Bom) (d : Bytes) (n q fuel
     (hbal : balancedSkip n pos bom d 1 = some q) :
     ∃ r', skipContainer fuel r = .ok r' () ∧ Rel r' (pos + q) bom (d.drop q) := by
   have href := balancedSkip_skipRef n pos bom d 1 q hbal
-  rcases skipLoop_spec _ r pos bom d .none 1 fuel (Nat.le_refl _) hrel hcap hfuel with ⟨r', hio⟩ | hok
+  rcases skipLoop_spec _ r pos bom d .none 1 fuel (Nat.le_refl _) hrel hfuel with ⟨r', hio⟩ | ⟨_, _, h1, h2⟩ | hok
   · exfalso
     have := skipLoop_inv NoFaults_closed fuel r .none 1 0 hnf
     rw [hio] at this
     exact this.2.2 rfl
+  · exfalso; rcases hcap with h | h
+    · exact h1 h
+    · omega
   · unfold SkipOut at hok
     rw [href] at hok
     obtain ⟨r', h1, h2, _⟩ := hok
@@ -1048,8 +1050,13 @@ after the matching close of the bytewise reference (reader related to the rest),
 first.  It never lands anywhere else and never reports success without the matching close. -/
 theorem C20_text_skip_container (r : Reader) (pos : Nat) (bom : Bom) (d : Bytes) (fuel : Nat)
     (hrel : Rel r pos bom d) (hcap : r.cap = 0 ∨ 3 ≤ r.cap) (hfuel : r.src.rest.length + 1 ≤ fuel) :
-    (∃ r', skipContainer fuel r = .err r' .io) ∨ SkipOut (skipContainer fuel r) r.cap pos bom d .none 1 :=
-  skipLoop_spec _ r pos bom d .none 1 fuel (Nat.le_refl _) hrel hcap hfuel
+    (∃ r', skipContainer fuel r = .err r' .io) ∨ SkipOut (skipContainer fuel r) r.cap pos bom d .none 1 := by
+  rcases skipLoop_spec _ r pos bom d .none 1 fuel (Nat.le_refl _) hrel hfuel with h | ⟨_, _, h1, h2⟩ | h
+  · exact Or.inl h
+  · exfalso; rcases hcap with h | h
+    · exact h1 h
+    · omega
+  · exact Or.inr h
 
 -- `{ "}" #}\n b="\"}" } c` after the first Open: token counting and the skipper both land on ` c`
 example : balancedSkip 20 1 .unknown [32, 34, 125, 34, 32, 35, 125, 10, 32, 98, 61, 34, 92, 34, 125, 34, 32, 125, 32, 99] 1 = some 18 := by
